@@ -60,12 +60,28 @@ RepeatedFieldPoisons ==
     P("http2", "window-update-zero-on-stream", "undecodable", "down"),
     P("http2", "upstream-headers-duplicate-status", "undecodable", "up") }
 
+(* frames / messages that are well-formed but illegal in the state of their stream or connection (RFC 7540 5.1; xprotocol:
+   ids nobody asked for).  Whatever the verdict of the connection: the process lives, the others are served, the connection goes
+   on or is closed, in bounded time. *)
+StateSequencePoisons ==
+  { P("http2", "data-after-end-stream", "any", "down"), P("http2", "empty-data-after-end-stream", "any", "down"),
+    P("http2", "data-after-rst-stream", "any", "down"), P("http2", "data-after-trailers", "any", "down"),
+    P("http2", "trailers-after-end-stream", "any", "down"), P("http2", "window-update-idle-stream", "any", "down"),
+    P("http2", "data-on-idle-stream", "undecodable", "down"), P("http2", "rst-stream-idle-stream", "undecodable", "down"),
+    P("http2", "headers-even-stream-id", "undecodable", "down"), P("http2", "headers-lower-stream-id", "undecodable", "down"),
+    P("http2", "headers-while-block-open", "undecodable", "down"),
+    P("http2", "upstream-data-for-unknown-stream", "any", "up"), P("http2", "upstream-push-promise", "any", "up"),
+    P("http2", "upstream-frames-for-closed-stream", "any", "up"),
+    P("bolt", "response-out-of-nowhere", "any", "down"), P("bolt", "heartbeat-response-out-of-nowhere", "any", "down"),
+    P("bolt", "request-id-reused-while-open", "any", "down"),
+    P("bolt", "upstream-stray-and-duplicate-responses", "valid", "up") }
+
 IntegerBoundaryPoisons ==
   { P("http1", "content-length-" \o v, "any", "down") : v \in {"2p31m1", "2p31", "2p32m1", "2p32", "2p63m1", "2p63", "2p64m1", "2p64"} }
   \cup { P("http1", "chunk-size-" \o v, "any", "down") :
             v \in {"7fffffff", "80000000", "ffffffff", "100000000", "7fffffffffffffff", "8000000000000000", "ffffffffffffffff", "10000000000000000"} }
   \cup { P("http1", "upstream-content-length-2p31m1", "any", "up"), P("http1", "upstream-chunk-size-7fffffff", "any", "up") }
-  \cup RepeatedFieldPoisons
+  \cup RepeatedFieldPoisons \cup StateSequencePoisons
   \cup { P("bolt", "body-length-2p31m1", "incomplete", "down"), P("bolt", "body-length-2p31", "incomplete", "down"),
          P("dubbothrift", "outer-length-wraps", "incomplete", "down"),
          P("http2", "headers-hpack-index-2p63", "undecodable", "down"),
